@@ -279,6 +279,44 @@ func rectilinear3(k int, combos [][3]bool, barsInsideOuterOnly bool) [][][]oracl
 	return out
 }
 
+// nestings: chains of k rectangles, each strictly inside the previous one (concentric or pushed
+// into a corner of its parent), in every combination of orientations: islands inside holes
+// inside islands.
+func nestings(k int) [][][]oracle.Pt {
+	type rc struct{ x0, y0, x1, y1 float64 }
+	var out [][][]oracle.Pt
+	var rec func(chain []rc)
+	rec = func(chain []rc) {
+		if len(chain) == k {
+			for o := 0; o < 1<<k; o++ {
+				var cs [][]oracle.Pt
+				for i, r := range chain {
+					ccw := o&(1<<i) == 0
+					if ccw {
+						cs = append(cs, []oracle.Pt{{X: r.x0, Y: r.y0}, {X: r.x1, Y: r.y0}, {X: r.x1, Y: r.y1}, {X: r.x0, Y: r.y1}})
+					} else {
+						cs = append(cs, []oracle.Pt{{X: r.x0, Y: r.y0}, {X: r.x0, Y: r.y1}, {X: r.x1, Y: r.y1}, {X: r.x1, Y: r.y0}})
+					}
+				}
+				out = append(out, cs)
+			}
+			return
+		}
+		p := chain[len(chain)-1]
+		w, h := p.x1-p.x0, p.y1-p.y0
+		// concentric, and shifted towards the lower-left / upper-right corner of the parent
+		for _, c := range []rc{
+			{p.x0 + w/8, p.y0 + h/8, p.x1 - w/8, p.y1 - h/8},
+			{p.x0 + w/16, p.y0 + h/16, p.x0 + w/2, p.y0 + h/2},
+			{p.x0 + w/2, p.y0 + h/4, p.x1 - w/16, p.y1 - h/16},
+		} {
+			rec(append(append([]rc{}, chain...), c))
+		}
+	}
+	rec([]rc{{0, 0, 16, 16}})
+	return out
+}
+
 func families(tier string) []fw.Family {
 	L3, L4 := oracle.Lattice(3), oracle.Lattice(4)
 	tri3r := oracle.ContoursModRotation(L3, 3)
@@ -288,11 +326,14 @@ func families(tier string) []fw.Family {
 		family("pent(L3)/rot", single(oracle.ContoursModRotation(L3, 5)), 1, 1e-8, 1e-6, false),
 		family("tri(L3)/rot + tri(L3)/rot (two contours)", pairs(tri3r, tri3r), 1, 1e-8, 1e-6, false),
 		family("rectilinear outer+inner+bar (L5), CCW/CW/CCW", rectilinear3(5, [][3]bool{{true, false, true}}, true), 1, 1e-8, 1e-6, false),
+		family("nested rectangles, 3 levels, all orientations", nestings(3), 1, 1e-8, 1e-6, false),
+		family("nested rectangles, 4 levels, all orientations", nestings(4), 1, 1e-8, 1e-6, false),
 		family("quad(L3)/rot, coarse grid eps=0.25 on x4 lattice", single(oracle.ContoursModRotation(L3, 4)), 4, 0.25, 0.5, false),
 		family("open quad(L3)/rot (open subpaths, implicitly closed)", single(oracle.ContoursModRotation(L3, 4)), 1, 1e-8, 1e-6, true),
 	}
 	if tier == "thorough" {
 		fs = append(fs,
+			family("nested rectangles, 5 levels, all orientations", nestings(5), 1, 1e-8, 1e-6, false),
 			family("pent(L4)/rot", single(oracle.ContoursModRotation(L4, 5)), 1, 1e-8, 1e-6, false),
 			family("hex(L3)/rot", single(oracle.ContoursModRotation(L3, 6)), 1, 1e-8, 1e-6, false),
 			family("tri(L3) + tri(L3) (two contours, all start vertices)", pairs(oracle.Contours(L3, 3), oracle.Contours(L3, 3)), 1, 1e-8, 1e-6, false),
